@@ -156,3 +156,35 @@ func tail(s string, n int) string {
 	}
 	return s
 }
+
+// runBounded runs the bounded stand-ins registered for a property (harness/index.json, key "bounded:<prop>").
+// They check contracts of functions that are not (yet) within the verifier's reach on an enumerated, stated
+// bound. Their cases are reported separately and never counted as discharged obligations.
+func runBounded(repo, verif, prop, tier string) (summary []string, failing []string) {
+	loadPropHarness(verif)
+	h, ok := propHarness["bounded:"+prop]
+	if !ok {
+		return nil, nil
+	}
+	for _, one := range strings.Split(h, ",") {
+		parts := strings.SplitN(strings.TrimSpace(one), ":", 2)
+		if len(parts) != 2 {
+			continue
+		}
+		out, _ := runHarness(repo, verif, parts[0], "^"+parts[1]+"$", []string{"VERIF_TIER=" + tier}, 300*time.Second)
+		ran := false
+		for _, ln := range strings.Split(out, "\n") {
+			if i := strings.Index(ln, "FAILING-INPUT "); i >= 0 {
+				failing = append(failing, strings.TrimSpace(ln[i:]))
+			}
+			if i := strings.Index(ln, "BOUNDED "); i >= 0 {
+				summary = append(summary, strings.TrimSpace(ln[i:]))
+				ran = true
+			}
+		}
+		if !ran {
+			failing = append(failing, "bounded stand-in "+one+" did not run: "+trunc(strings.ReplaceAll(tail(out, 300), "\n", " | "), 300))
+		}
+	}
+	return
+}
